@@ -42,7 +42,7 @@ package guts_cli
 //@   returns (err)
 //@   props C20
 //@   requires len(pageBuf) >= 16
-//@   ensures [once] fwcount <= old(fwcount) + 1
+//@   ensures [once] fwcount <= old(fwcount) + 1 && fwcount >= old(fwcount)
 //@   ensures [target] fwcount == old(fwcount) + 1 ==> fwpath == path && fwlen == len(pageBuf) && osopenflag == 1      -- O_WRONLY
 //@   ensures [success] err == nil ==> fwcount == old(fwcount) + 1
 //@   ensures [snapshot] fwcount == old(fwcount) + 1 ==> (let m := metaof(pageat(pageBuf)) in fwpageid == pageat(pageBuf).id && fwtxid == m.txid && fwroot == m.root.root && fwsequence == m.root.sequence && fwfreelist == m.freelist && fwpgid == m.pgid && fwmagic == m.magic && fwversion == m.version && fwpagesize == m.pageSize && fwflags == m.flags && fwsumok == (m.checksum == msum(m)))
